@@ -73,7 +73,50 @@ def _mk_product(kind, R):
     return ob
 
 
+def _mk_defaults(kind, R):
+    """documented defaults of the constructors (omitted nu / ln_beta are zero, omitted g is one): the function the object
+    denotes, and its product with a measure, are the ones of the explicit arguments"""
+    def ob(w):
+        from .. import spec as SP
+        xp = w.xp
+        F, Mm = SP.mods()["factor"], SP.mods()["measure"]
+        B = SP.batch(R)
+        x = w.arr("x", "N", "D")
+        if kind == "general":
+            L = w.symm("Lf", B, "D")
+            f = F.ConjugateFactor(Lambda=L)                               # REAL
+            view = dict(L=L, nu=None, lb=0.0 * L[:, 0, 0])
+        elif kind == "rank-one":
+            v = w.arr("vf", *B, "D")
+            f = F.OneRankFactor(v=v)                                       # REAL
+            view = dict(L=xp.einsum("ri,rj->rij", v, v), nu=None, lb=0.0 * v[:, 0])
+        elif kind == "linear":
+            nu = w.arr("nf", *B, "D")
+            f = F.LinearFactor(nu=nu)                                      # REAL
+            view = dict(L=None, nu=nu, lb=0.0 * nu[:, 0])
+        elif kind == "measure":
+            g = w.spd("f", B, "D")
+            f = Mm.GaussianMeasure(Lambda=g["L"])                         # REAL
+            view = dict(L=g["L"], nu=None, lb=0.0 * g["ld"])
+        else:
+            g = w.diag_spd("f", B, "D")
+            f = Mm.GaussianDiagMeasure(Lambda=g["L"])                     # REAL
+            view = dict(L=g["L"], nu=None, lb=0.0 * g["ld"])
+        w.equal("value", f.evaluate_ln(x), view_lnf(w, view, x, R))
+        u, uv = gen_factor(w, "measure", "u", "R1", "D")
+        res = u.multiply(f)                                               # REAL
+        spec = view_lnf(w, uv, x, "R1")[:, None, :] + view_lnf(w, view, x, R)[None, :, :]
+        r2 = 1 if R == 1 else w.size(R)
+        w.equal("product/value", res.evaluate_ln(x), xp.reshape(spec, (w.size("R1") * r2, w.size("N"))))
+    return ob
+
+
 def _register():
+    for kind in ("general", "rank-one", "linear", "measure", "diag-measure"):
+        for R in ("R2", 1):
+            REG.ob(f"ctor-defaults/{kind}/R={R}", sorts=["R1"] + (["R2"] if R != 1 else []) + ["D", "N"],
+                   funcs=[f"{FACTOR_CLS[kind]}.__post_init__", "factor.ConjugateFactor.evaluate_ln"] + _funcs("measure", kind, "multiply")[4:])(
+                _mk_defaults(kind, R))
     RC_MUL = [("R1", "R2"), (1, "R2"), ("R1", 1), (1, 1)]
     RC_HAD = [("R1", "R1"), (1, "R2"), ("R1", 1), (1, 1)]
     for ukind in U_KINDS:
